@@ -210,6 +210,7 @@ def gen_to_seq(eng, st, g):
     ]
     st = st.assume(*ax)
     out = VSeq(m, lambda s, jj: g.elt_at(z3.Select(src, jj)), known_len=None, tag="filter", src=seq.src)
+    out.flt = (src, dst, g)        # ghost maps, for the coverage fact of lists built from a filtered set iteration
     st = st.setghost(("filter", m.decl().name()), (src, dst, n))
     return st, out
 
